@@ -7,6 +7,8 @@ echo "[" > $out.tmp
 first=1
 run() { # patch id label
   local p=$1 id=$2 label=$3
+  # every scratch worktree path compiles into fresh build-cache entries: trim so the disk does not fill
+  cnt=$((${cnt:-0}+1)); if [ $((cnt % 12)) -eq 0 ]; then GOCACHE=/verif/.gocache go clean -cache; rm -rf /verif/.ovl/*; ./setup.sh >/dev/null 2>&1; fi
   res=$(LINES_OUT=400 tools/trymutant.sh $p $id 2>&1)
   rc=$?
   if echo "$res" | grep -q "PATCH DOES NOT APPLY"; then st="does-not-apply"; elif [ $rc -eq 1 ] && echo "$res" | grep -q "^VIOLATION"; then st="caught"; else st="MISSED(rc=$rc)"; fi
